@@ -47,7 +47,7 @@ def object_encoding_for(spec, o):
     for c in spec["cols"]:
         k = c["kind"]
         m[c["name"]] = {"str": "utf8", "bytes": "bytes", "json": "json"}.get(k, "infer")
-    if spec.get("index"):
+    if spec.get("index") and spec["index"]["kind"] != "range":
         m[spec["index"]["name"]] = {"str": "utf8"}.get(spec["index"]["kind"], "infer")
     return m
 
@@ -80,6 +80,18 @@ def index_expected(df, o):
     if wi is True:
         return True
     return not (isinstance(df.index, pd.RangeIndex) and df.index.start == 0 and df.index.step == 1 and df.index.name is None)
+
+
+def index_as_column(df, o):
+    """is the index stored as a column of the file? (a RangeIndex of any start/step/name goes into the pandas
+    metadata instead, unless write_index=True asks for a column)"""
+    import pandas as pd
+    wi = o["write_index"]
+    if wi is False:
+        return False
+    if wi is True:
+        return True
+    return not isinstance(df.index, pd.RangeIndex)
 
 
 def roundtrip(spec, o, root):
